@@ -6,8 +6,16 @@
 // input lines
 //   SSET <prob>                                  -> n (opcode arity param)*
 //   GEN  <type> <prob> <seed> <steps>            -> OK | dump | savehex | ret | dump' | savehex' | sig sig' | valid' | dump with cached signatures cleared
-//   LOAD <type> <prob> <seed> <steps> <hex|->    -> OK | ret | dump0 | savehex0 | valid0 | dump1 | savehex1 | valid1
-//   (target of LOAD = the object GEN builds from the same type/prob/seed/steps)
+//   LOAD <type> <prob> <seed> <steps> <hex|-> [flags]
+//                                                -> OK | ret | dump0 | savehex0 | valid0 | dump1 | savehex1 | valid1 | problem0 problem1
+//   (target of LOAD = the object GEN builds from the same type/prob/seed/steps; flags: 's' = then every value
+//    it holds is replaced keeping its SHAPE (matrix shape, genome length, rows x categories, team size, layer
+//    structure), so that a target of the shape of a serialised object but with other content is obtained by
+//    passing that object's own seed/steps; '2' = load() is called with a SECOND, distinct problem object of the
+//    same construction; problem0/1 = which problem object a population is bound to before/after, '-' otherwise)
+//   CACHE <bits> <op>...   ops I,k0,k1,w[,w..] insert  C clear()  X,k0,k1 clear(key)   (hex 64-bit patterns)
+//                                                -> OK | ret | savehex | savehex of the reloaded fresh cache | n (k0 k1 lookup-original lookup-reloaded)*
+//   SSET 2 / SSET 3 = the symbol sets of the second problem objects
 // types: H F MEP GA DE TEAM POPMEP POPGA POPDE POPTEAM SUMMEP SUMGA SUMDE DIST MAT
 //        DISTX = DIST fed with finite values whose squares overflow (non-finite second moment)
 //
@@ -139,6 +147,7 @@ struct problems
 };
 
 problems *P;
+problems *P2;  // second, distinct problem objects of the same construction
 
 // random finite double of any magnitude (random pattern, exponent < 2047)
 double extreme()
@@ -518,10 +527,81 @@ matrix<int> gen(tag<matrix<int>>, problem &, unsigned steps)
   return m;
 }
 
+// ---- replace the content, keep the shape -----------------------------------------
+void reshape(hash_t &h, problem &) { h.data[0] ^= 1; h.data[1] ^= 0x5555; }
+void reshape(fitness_t &f, problem &)
+{
+  fitness_t::values_t v(f.size());
+  for (std::size_t i(0); i < f.size(); ++i) v[i] = -f[i] + 1.0;
+  f = fitness_t(v);
+}
+void reshape(i_mep &x, problem &p)
+{
+  if (x.empty()) return;
+  const auto age(x.age());
+  x = i_mep(p);                       // same rows x categories
+  for (unsigned i(0); i < age + 3; ++i) x.inc_age();
+}
+void reshape(i_ga &x, problem &)
+{
+  for (auto &g : x.genome_) g ^= 0x2A;
+  x.inc_age();
+  x.signature_.clear();
+}
+void reshape(i_de &x, problem &)
+{
+  for (auto &g : x.genome_) g = -g * 0.5 + 1.0;
+  x.inc_age();
+  x.signature_.clear();
+}
+template<class T> void reshape(team<T> &t, problem &p)
+{
+  for (auto &i : t.individuals_) reshape(i, p);
+  t.signature_.clear();
+}
+template<class T> void reshape(population<T> &pop, problem &p)
+{
+  for (auto &l : pop.pop_)
+    for (auto &i : l) reshape(i, p);
+}
+template<class T> void reshape(summary<T> &s, problem &p)
+{
+  reshape(s.best.solution, p);
+  if (s.best.score.fitness.size()) reshape(s.best.score.fitness, p);
+  s.mutations ^= 0xFF;
+  s.gen += 1;
+}
+void reshape(distribution<double> &d, problem &)
+{
+  std::map<double, std::uintmax_t> m;
+  for (const auto &e : d.seen_) m[-e.first] = e.second + 1;
+  d.seen_ = m;
+  const double mn(d.min_), mx(d.max_);
+  d.min_ = -mx;
+  d.max_ = -mn;
+  d.mean_ = -d.mean_;
+  d.m2_ = d.m2_ * 0.5;
+}
+void reshape(matrix<int> &m, problem &)
+{
+  for (auto &e : m.data_) e ^= 0x2A;
+}
+
+// which of the known problem objects a population is bound to
+template<class T> std::string bound_problem(const T &) { return "-"; }
+template<class T> std::string bound_problem(const population<T> &pop)
+{
+  const problem *q(pop.prob_);
+  const problem *known[] = {&P->mep1, &P->mep2, &P->ga, &P->de, &P2->mep1, &P2->mep2, &P2->ga, &P2->de};
+  for (int i(0); i < 8; ++i)
+    if (q == known[i]) return "P" + std::to_string(i);
+  return "P?";
+}
+
 template<class T> T fresh(tag<T>, problem &) { return T(); }
 template<class T> population<T> fresh(tag<population<T>>, problem &p) { return population<T>(p); }
 
-template<class T> void run(const std::vector<std::string> &w, problem &p)
+template<class T> void run(const std::vector<std::string> &w, problem &p, problem &palt)
 {
   const unsigned seed(static_cast<unsigned>(std::stoul(w[3])));
   const unsigned steps(static_cast<unsigned>(std::stoul(w[4])));
@@ -542,13 +622,81 @@ template<class T> void run(const std::vector<std::string> &w, problem &p)
   }
   else
   {
-    const std::string d0(dump_s(x)), s0(save_s(x));
+    const std::string flags(w.size() > 6 ? w[6] : "");
+    if (flags.find('s') != std::string::npos)
+      reshape(x, p);
+    problem &lp(flags.find('2') != std::string::npos ? palt : p);
+    const std::string d0(dump_s(x)), s0(save_s(x)), b0(bound_problem(x));
     const bool v0(valid(x));
     std::istringstream in(from_hex(w[5]));
-    const bool ret(do_load(x, in, p));
+    const bool ret(do_load(x, in, lp));
     std::cout << "OK | " << ret << " | " << d0 << " | " << to_hex(s0) << " | " << v0 << " | " << dump_s(x) << " | "
-              << to_hex(save_s(x)) << " | " << valid(x) << '\n';
+              << to_hex(save_s(x)) << " | " << valid(x) << " | " << b0 << ' ' << bound_problem(x) << '\n';
   }
+}
+
+// ---- the fitness cache: op script, save, load into a fresh cache, every key ever used looked up in both
+void run_cache(const std::vector<std::string> &w)
+{
+  const unsigned bits(static_cast<unsigned>(std::stoul(w[1])));
+  cache c(bits);
+  std::vector<hash_t> keys;
+  auto note([&keys](const hash_t &h)
+  {
+    for (const auto &k : keys)
+      if (k == h) return;
+    keys.push_back(h);
+  });
+  auto fields([](const std::string &s)
+  {
+    std::vector<std::string> out;
+    std::string cur;
+    for (char ch : s)
+      if (ch == ',') { out.push_back(cur); cur.clear(); } else cur += ch;
+    out.push_back(cur);
+    return out;
+  });
+  for (std::size_t i(2); i < w.size(); ++i)
+  {
+    const auto f(fields(w[i]));
+    if (f[0] == "C")
+      c.clear();
+    else if (f[0] == "X" && f.size() == 3)
+    {
+      const hash_t h(std::stoull(f[1], nullptr, 16), std::stoull(f[2], nullptr, 16));
+      note(h);
+      c.clear(h);
+    }
+    else if (f[0] == "I" && f.size() >= 3)
+    {
+      const hash_t h(std::stoull(f[1], nullptr, 16), std::stoull(f[2], nullptr, 16));
+      fitness_t::values_t v;
+      for (std::size_t j(3); j < f.size(); ++j) v.push_back(double_of(std::stoull(f[j], nullptr, 16)));
+      note(h);
+      c.insert(h, fitness_t(v));
+    }
+  }
+  std::ostringstream o;
+  c.save(o);
+  cache c2(bits);
+  std::istringstream in(o.str());
+  const bool ret(c2.load(in));
+  std::ostringstream o2;
+  c2.save(o2);
+  std::cout << "OK | " << ret << " | " << to_hex(o.str()) << " | " << to_hex(o2.str()) << " | " << keys.size();
+  for (const auto &k : keys)
+  {
+    std::cout << ' ';
+    dump(std::cout, k);
+    const fitness_t a(c.find(k)), b(c2.find(k));
+    std::cout << ' ';
+    if (!a.size()) std::cout << '-';
+    for (std::size_t j(0); j < a.size(); ++j) std::cout << (j ? "," : "") << hex64(bits_of(a[j]));
+    std::cout << ' ';
+    if (!b.size()) std::cout << '-';
+    for (std::size_t j(0); j < b.size(); ++j) std::cout << (j ? "," : "") << hex64(bits_of(b[j]));
+  }
+  std::cout << '\n';
 }
 }  // namespace
 
@@ -557,6 +705,8 @@ int main()
   log::reporting_level = log::lOFF;
   problems ps;
   P = &ps;
+  problems ps2;
+  P2 = &ps2;
 
   std::ios::sync_with_stdio(false);
   std::string line;
@@ -567,12 +717,18 @@ int main()
     {
       if (w.size() == 2 && w[0] == "SSET")
       {
-        const auto &ss(ps.mep(std::stoi(w[1])).sset);
+        const int ks(std::stoi(w[1]));
+        const auto &ss((ks < 2 ? ps : ps2).mep(ks % 2).sset);
         std::cout << ss.symbols_.size();
         for (const auto &s : ss.symbols_)
           std::cout << ' ' << hex64(s->opcode()) << ' ' << s->arity() << ' '
                     << (s->terminal() && terminal::cast(s.get())->parametric() ? 1 : 0);
         std::cout << '\n';
+        continue;
+      }
+      if (w.size() >= 2 && w[0] == "CACHE")
+      {
+        run_cache(w);
         continue;
       }
       if (w.size() < 5 || (w[0] != "GEN" && w[0] != "LOAD") || (w[0] == "LOAD" && w.size() < 6))
@@ -582,25 +738,25 @@ int main()
       }
       const std::string &t(w[1]);
       const int k(std::stoi(w[2]));
-      if (t == "H") run<hash_t>(w, ps.mep1);
-      else if (t == "F") run<fitness_t>(w, ps.mep1);
-      else if (t == "MEP") run<i_mep>(w, ps.mep(k));
-      else if (t == "GA") run<i_ga>(w, ps.ga);
-      else if (t == "DE") run<i_de>(w, ps.de);
-      else if (t == "TEAM") run<team<i_mep>>(w, ps.mep(k));
-      else if (t == "POPMEP") run<population<i_mep>>(w, ps.mep(k));
-      else if (t == "POPGA") run<population<i_ga>>(w, ps.ga);
-      else if (t == "POPDE") run<population<i_de>>(w, ps.de);
-      else if (t == "POPTEAM") run<population<team<i_mep>>>(w, ps.mep(k));
-      else if (t == "SUMMEP") run<summary<i_mep>>(w, ps.mep(k));
-      else if (t == "SUMGA") run<summary<i_ga>>(w, ps.ga);
-      else if (t == "SUMDE") run<summary<i_de>>(w, ps.de);
+      if (t == "H") run<hash_t>(w, ps.mep1, ps2.mep1);
+      else if (t == "F") run<fitness_t>(w, ps.mep1, ps2.mep1);
+      else if (t == "MEP") run<i_mep>(w, ps.mep(k), ps2.mep(k));
+      else if (t == "GA") run<i_ga>(w, ps.ga, ps2.ga);
+      else if (t == "DE") run<i_de>(w, ps.de, ps2.de);
+      else if (t == "TEAM") run<team<i_mep>>(w, ps.mep(k), ps2.mep(k));
+      else if (t == "POPMEP") run<population<i_mep>>(w, ps.mep(k), ps2.mep(k));
+      else if (t == "POPGA") run<population<i_ga>>(w, ps.ga, ps2.ga);
+      else if (t == "POPDE") run<population<i_de>>(w, ps.de, ps2.de);
+      else if (t == "POPTEAM") run<population<team<i_mep>>>(w, ps.mep(k), ps2.mep(k));
+      else if (t == "SUMMEP") run<summary<i_mep>>(w, ps.mep(k), ps2.mep(k));
+      else if (t == "SUMGA") run<summary<i_ga>>(w, ps.ga, ps2.ga);
+      else if (t == "SUMDE") run<summary<i_de>>(w, ps.de, ps2.de);
       else if (t == "DIST" || t == "DISTX")
       {
         dist_unbounded = (t == "DISTX");
-        run<distribution<double>>(w, ps.mep1);
+        run<distribution<double>>(w, ps.mep1, ps2.mep1);
       }
-      else if (t == "MAT") run<matrix<int>>(w, ps.mep1);
+      else if (t == "MAT") run<matrix<int>>(w, ps.mep1, ps2.mep1);
       else std::cout << "BADTYPE\n";
     }
     catch (const std::exception &e)
